@@ -708,6 +708,11 @@ def drive_c20(ctx):
         ev = actions.peek(f, ch, tail)
         if ev is not None:
             rec.add('Peek', P, nt=True, **ev)
+    if ctx.shard == 4:
+        from pamqp import heartbeat as _hb2
+        for ch in (0, 1, 5, 255, 256, 65535):       # a heartbeat marshalled "on" any channel is still a frame the decoder takes
+            rec.add('Peek', P, nt=True, **actions.peek(_hb2.Heartbeat(), ch, b''))
+            rec.add('Peek', P, nt=True, **actions.peek(_hb2.Heartbeat(), ch, b'\x08\x00'))
     # frames around and beyond 128 KiB: whatever the encoder produces, size + 8 bytes is what the decoder takes
     from pamqp import body as _body, commands as _commands
     for i, n in enumerate([131063, 131064, 131065, 200000] if ctx.quick else [131063, 131064, 131065, 131072, 200000, 400000]):
@@ -817,10 +822,17 @@ def drive_c13(ctx):
                 continue
             rec.add('Construct', P, nt=True, sigx='%s.%s' % (name, a), **actions.construct(name, {a: v}))
             base = framegen.method_kwargs(rng, sm)
-            rec.add('SetThenMarshal', P, nt=True, sigx='%s.%s' % (name, a), **actions.set_then_marshal(name, base, a, v))
+            try:
+                rec.add('SetThenMarshal', P, nt=True, sigx='%s.%s' % (name, a), **actions.set_then_marshal(name, base, a, v))
+            except actions.BaseRefused as br:
+                rec.add('Construct', P, nt=True, sigx='%s.%s' % (name, a), **br.args[0])
+                continue
             # the same, with OTHER frames successfully marshalled between the mutation and the marshal (and nothing else)
-            rec.add('SetThenMarshal', P, nt=True, sigx='%s.%s' % (name, a), history='others-marshalled-in-between',
-                    **actions.set_then_marshal(name, framegen.method_kwargs(rng, sm), a, v, between=True))
+            try:
+                rec.add('SetThenMarshal', P, nt=True, sigx='%s.%s' % (name, a), history='others-marshalled-in-between',
+                        **actions.set_then_marshal(name, framegen.method_kwargs(rng, sm), a, v, between=True))
+            except actions.BaseRefused as br:
+                rec.add('Construct', P, nt=True, sigx='%s.%s' % (name, a), **br.args[0])
             base2 = framegen.method_kwargs(rng, sm)
             base2[a] = v
             rec.add('Construct', P, nt=True, sigx='%s.%s' % (name, a), **actions.construct(name, base2))
@@ -840,11 +852,20 @@ def drive_c13(ctx):
             rec.add('Construct', P, nt=True, sigx=name + '.same-value', **actions.construct(name, kw))
             base = framegen.method_kwargs(rng, sm)
             o_kw = dict(base)
-            ev = actions.set_then_marshal(name, o_kw, argnames[0], v)
+            try:
+                ev = actions.set_then_marshal(name, o_kw, argnames[0], v)
+            except actions.BaseRefused as br:
+                rec.add('Construct', P, nt=True, sigx=name + '.same-value', **br.args[0])
+                continue
             rec.add('SetThenMarshal', P, nt=True, sigx=name + '.same-value', **ev)
             # both set after construction
             from abstraction import class_by_name
-            obj = class_by_name(name)(**framegen.method_kwargs(rng, sm))
+            kw3 = framegen.method_kwargs(rng, sm)
+            try:
+                obj = class_by_name(name)(**kw3)
+            except Exception:  # noqa
+                rec.add('Construct', P, nt=True, sigx=name + '.same-value', **actions.construct(name, kw3))
+                continue
             for a in argnames:
                 setattr(obj, a, v)
             from pamqp import frame as _fr
